@@ -32,7 +32,7 @@ def main():
         x = a.pop(0)
         if x == "--jobs": jobs = int(a.pop(0))
         elif x == "--only": only = a; break
-    dirs = [d for d in sorted(glob.glob(os.path.join(ROOT, "benign", "B*-[0-9]"))) if not only or any(o in d for o in only)]
+    dirs = [d for d in sorted(glob.glob(os.path.join(ROOT, "benign", "*-[0-9]"))) if not only or any(o in d for o in only)]
     rows = []
     with cf.ThreadPoolExecutor(jobs) as ex:
         for name, alarms in ex.map(one, dirs):
